@@ -626,6 +626,13 @@ def run(ctx):
                    'GD (handlers)')
     shared.retry_not_defeated(ctx, r15)
 
+    # ---- R16 what "nothing pending" means --------------------------------------------
+    r16 = ctx.rule('R16', 'the incomplete / completed task queries partition '
+                   'the states exactly as is_completed() does; requires are '
+                   'read with task-defaults merged', 'AGREE (const)')
+    shared.completion_queries_partition(ctx, r16)
+    shared.requires_read_with_defaults(ctx, r16)
+
     # ---- R14 which commands follow a completed task / a start / a resume -------
     r14 = ctx.rule('R14', 'the controllers turn start, resume and every '
                    'completed task into the prescribed commands (start '
